@@ -123,6 +123,9 @@ func c05Keywords(e *Env) {
 }
 
 func c05ProcessScopes(e *Env) {
+	if c05ProcessScopesSSA(e) {
+		return
+	}
 	r := e.R
 	fd, pk := e.P.Decl("internal/pkg/compiler", "StepCompileServices.processScopes")
 	key := "internal/pkg/compiler.StepCompileServices.processScopes"
@@ -544,30 +547,57 @@ func c15Existing(e *Env) {
 			r.Undecide("R15.4", key, "anchor not found")
 			continue
 		}
-		// the MapUpdate keyed by <elem>.Name inside a loop with no conditional other than the range condition
-		ok := false
-		for _, b := range fn.Blocks {
+		ok := existingSetFilled(fn, v.field)
+		r.Check(ok, "R15.4", key, fmt.Sprintf("every element of o.%s is entered into the `existing` set unconditionally (todo ones included)", v.field))
+	}
+}
+
+// existingSetFilled: the set of declared names is filled by a MapUpdate keyed by <element>.Name inside a loop
+// with no conditional other than the loop condition, in the validator itself or in a set-building helper
+// that is handed the whole list o.<field>; the todo flag is not consulted.
+func existingSetFilled(fn *ssa.Function, field string) bool {
+	v := struct{ field string }{field}
+	// the MapUpdate keyed by <elem>.Name inside a loop with no conditional other than the range condition
+	ok := false
+	for _, uf := range unitFns(fn, 1) {
+		for _, b := range uf.Blocks {
 			for _, ins := range b.Instrs {
 				mu, isMu := ins.(*ssa.MapUpdate)
 				if !isMu || !derivesFromField(mu.Key, "Name", 0) {
 					continue
 				}
+				if uf != fn {
+					// a set-building helper: it must be handed the whole list of declared elements
+					okArg := false
+					for _, c := range callsIn(fn, false) {
+						if c.Common().StaticCallee() == uf {
+							for _, a := range c.Common().Args {
+								if sliceSourceField(a) == v.field {
+									okArg = true
+								}
+							}
+						}
+					}
+					if !okArg {
+						continue
+					}
+				}
 				// loop blocks around it
 				conds := 0
-				for _, lb := range fn.Blocks {
+				for _, lb := range uf.Blocks {
 					if reach(b, true)[lb] && reach(lb, false)[b] {
 						if _, isIf := lb.Instrs[len(lb.Instrs)-1].(*ssa.If); isIf {
 							conds++
 						}
 					}
 				}
-				if conds == 1 && !readsField(fn, "Todo") {
+				if conds == 1 && !readsField(uf, "Todo") {
 					ok = true
 				}
 			}
 		}
-		r.Check(ok, "R15.4", key, fmt.Sprintf("every element of o.%s is entered into the `existing` set unconditionally (todo ones included)", v.field))
 	}
+	return ok
 }
 
 func readsField(fn *ssa.Function, field string) bool {
